@@ -180,22 +180,12 @@ Proof.
     rewrite decode_run_bytes by (assumption || (unfold u64_ok; lia)).
     cbv beta iota.
     replace (fst r =? 0) with false by lia.
-    replace (add64 total (fst r)) with (total + fst r)
-      by (unfold add64; rewrite N.mod_small; lia).
     rewrite expand_runs_cons.
-    destruct (maxCount <? total + fst r) eqn:E1.
+    destruct (maxCount - total <? fst r) eqn:E1.
     + (* the capacity ends inside this run *)
-      rewrite N.ltb_irrefl.
-      rewrite firstn_repeat_app by lia.
-      destruct ((maxCount <? add64 (total + (maxCount - total)) (fst r)) && (maxCount - total <? fst r)) eqn:E2;
-        [reflexivity|].
-      rewrite skipn_run_bytes.
-      destruct f as [|f]; [lia|]. cbn [rle_decode_loop].
-      replace (total + (maxCount - total) <? maxCount) with false by lia.
-      cbn [rres_app]. rewrite app_nil_r. reflexivity.
+      rewrite E1. rewrite firstn_repeat_app by lia. reflexivity.
     + (* the whole run fits *)
-      replace (maxCount - total <? fst r) with false by lia.
-      rewrite N.ltb_irrefl, andb_false_r.
+      rewrite N.ltb_irrefl.
       rewrite skipn_run_bytes, IH by (assumption || lia).
       cbn [rres_app]. f_equal.
       rewrite firstn_repeat_app_ge by lia. f_equal. f_equal. lia.
@@ -513,19 +503,17 @@ Proof.
   cbn [rle_decode_loop]. destruct (total <? maxCount) eqn:E; [|cbn; lia].
   destruct (rle_decode_run z) as [[consumed runLen] value]. cbv beta iota.
   destruct (runLen =? 0); [cbn; lia|].
-  set (toWrite := if maxCount <? add64 total runLen then maxCount - total else runLen).
-  destruct (maxCount - total <? toWrite) eqn:E2.
+  set (toWrite := if maxCount - total <? runLen then maxCount - total else runLen).
+  assert (Ht : toWrite <= maxCount - total)
+    by (subst toWrite; destruct (maxCount - total <? runLen) eqn:E2; lia).
+  destruct (toWrite <? runLen).
   - cbn [rres_stores]. rewrite repeat_length. lia.
-  - destruct ((maxCount <? add64 (total + toWrite) runLen) && (toWrite <? runLen)).
-    + cbn [rres_stores]. rewrite repeat_length. lia.
-    + rewrite rres_stores_app, app_length, repeat_length.
-      specialize (IH (skipn (N.to_nat consumed) z) maxCount (total + toWrite)). lia.
+  - rewrite rres_stores_app, app_length, repeat_length.
+    specialize (IH (skipn (N.to_nat consumed) z) maxCount (total + toWrite)). lia.
 Qed.
 
-(* on ANY bytes the stores the model attributes to varintRLEDecode stay below
-   the capacity; what a hostile stream can provoke is the ROob outcome (the C
-   code would store further) — excluded for encoder output by
-   rle_decode_roundtrip *)
+(* on ANY bytes varintRLEDecode stores below the capacity only (after the fix
+   of the hostile-stream overflow there is no other outcome) *)
 Theorem rle_decode_cap z cap : N.of_nat (length (rres_stores (rle_decode z cap))) <= cap.
 Proof. pose proof (rle_decode_loop_cap (S (length z)) z cap 0). unfold rle_decode. lia. Qed.
 
